@@ -1648,6 +1648,9 @@ def compare_mpc_model(ctx: Ctx, reps, metas):
             _, Ja = r.cost(xm, um)
             eu = np.abs(ui - um) / (C_TOL * eps * tol_u + 1e-300)
             ex = np.abs(xi - xm) / (C_TOL * eps * tol_x + 1e-300)
+            if case.get("qstyle") == "nearsym":     # informational, see compare_lqr_model
+                NEARSYM.append((float(eu.max()), float(ex.max()), float(np.abs(ui - um).max() / (np.abs(um).max() + 1e-300))))
+                continue
             if eu.max() > 1 or ex.max() > 1 or abs(ci - cm) > C_TOL * eps * (Ja + float((_sg * tol_u).sum())) + C_TOL * r.floor(None, eps)[1] + 1e-300:
                 ctx.disagree("mpc", case, f"call {call + 1}: MPC on a linear system vs model: u {np.abs(ui - um).max():.3e} "
                                           f"(ratio {eu.max():.2f}), x ratio {ex.max():.2f}, cost {ci!r} vs {cm!r}")
